@@ -180,7 +180,28 @@ except Exception as e:
 sys.exit(0)
 '''
 
+ATTR_NONFINITE = r'''
+import sys, os, tempfile, importlib.util
+import numpy as np, onnx, onnxscript
+from onnx import helper, TensorProto
+g = helper.make_graph([helper.make_node("Constant", [], ["c"], value_float=float("inf")), helper.make_node("Min", ["x", "c"], ["y"])], "g",
+                      [helper.make_tensor_value_info("x", TensorProto.FLOAT, [2])], [helper.make_tensor_value_info("y", TensorProto.FLOAT, [2])])
+m = helper.make_model(g, opset_imports=[helper.make_opsetid("", 18)], ir_version=9)
+code = onnxscript.proto2python(m)
+d = tempfile.mkdtemp(); path = os.path.join(d, "nonfinite_case.py"); open(path, "w").write(code)
+spec = importlib.util.spec_from_file_location("nonfinite_case", path); mod = importlib.util.module_from_spec(spec); sys.modules["nonfinite_case"] = mod
+try:
+    spec.loader.exec_module(mod)
+except Exception as e:
+    line = [l.strip() for l in code.splitlines() if "Constant" in l][0]
+    print(f"Constant(value_float=inf) is exported as {line!r}; loading the script fails:", type(e).__name__, str(e).splitlines()[0][:140])
+    sys.exit(1)
+sys.exit(0)
+'''
+
 def replay(ob):
+    if "attribute_text.evaluates" in ob["name"]:
+        return ATTR_NONFINITE
     if "loop.break_is_printed" in ob["name"]:
         return LOOP_BREAK
     if "loop.header_reads_values" in ob["name"]:
